@@ -233,6 +233,9 @@ class SyncFakeEs:
 
 
 # ---------------------------------------------------------------------------------------------------
+TRACK_HOOK = None  # optional: (scn, lenient) -> (track, tasks_by_id), replaces the track built from the scenario
+
+
 def build_track(scn, lenient=()):
     """lenient: ids of tasks that set ignore-response-error-level: non-fatal (a failed request never aborts THEM under on-error=abort)."""
     from esrally.track import track
@@ -242,8 +245,10 @@ def build_track(scn, lenient=()):
     for e in scn["sched"]:
         leaves = []
         for t in e["tasks"]:
-            op = track.Operation(name="op%d" % t["id"], operation_type="raw-request", params={"path": "/_t/%d" % t["id"], "method": "GET"})
+            op = track.Operation(name="op%d" % t["id"], operation_type=t.get("optype", "raw-request"), params={"path": "/_t/%d" % t["id"], "method": "GET"})
             kw = dict(name="t%d" % t["id"], operation=op, clients=t["clients"], completes_parent=bool(t["cp"]), any_completes_parent=bool(t["acp"]))
+            if t.get("tags"):
+                kw.update(tags=list(t["tags"]))
             if t["reqs"] == ETERNAL:
                 kw.update(warmup_time_period=0)
             elif t["reqs"] == TIMED:
@@ -456,6 +461,9 @@ class RaceWorld:
         self.cfg = build_config(self, test_mode, on_error, queue_size, downsample, cores, hosts)
         self.lenient = set(lenient)
         self.track, self.tasks_by_id = build_track(scn, self.lenient)
+        if TRACK_HOOK is not None:
+            # C11's race leg: the track race control loads is what the REAL task filter leaves of a larger track
+            self.track, self.tasks_by_id = TRACK_HOOK(scn, self.lenient)
         if full:
             import shutil
 
